@@ -6,7 +6,8 @@ of the crate, as (file, function, kind) triples.  Kinds:
   randomstate-map       a std HashMap/HashSet with the default RandomState is created
   map-iteration         iteration over a HashMap (order depends on RandomState)
   clock                 SystemTime / Instant
-  global-state          static mut / thread_local! / lazy_static!
+  global-state          any static item (mut or not), OnceLock / LazyLock / atomics, thread_local! / lazy_static!
+  environment           std::env, thread identity, worker count, process id
   address               pointer formatting or pointer-to-integer casts
 The proofs compare this list with the one the models declare."""
 import os
@@ -69,8 +70,13 @@ def kinds(body, rngvars):
         ks.add("randomstate-map")
     if re.search(r"\bSystemTime\b|\bInstant\b", body):
         ks.add("clock")
-    if re.search(r"\bstatic\s+mut\b|thread_local!|lazy_static!", body):
+    # any process-wide or thread-wide state: static items (mut or not: OnceLock, atomics, mutexes live in plain statics),
+    # lazily initialised cells, thread locals
+    if re.search(r"\bstatic\s+(?:mut\s+)?[A-Za-z_]\w*\s*:|thread_local!|lazy_static!|\b(?:OnceLock|OnceCell|LazyLock|LazyCell|Lazy)\b|\bAtomic(?:Bool|Usize|Isize|U8|U16|U32|U64|I8|I16|I32|I64|Ptr)\b", body):
         ks.add("global-state")
+    # environment and thread identity
+    if re.search(r"\bstd::env::|\benv::var\b|\bthread::current\(\)|\bcurrent_num_threads\(\)|\bprocess::id\(\)", body):
+        ks.add("environment")
     if re.search(r"\{:p\}|as\s+\*const\s+\w+\s+as\s+usize|as_ptr\(\)\s+as\s+usize", body):
         ks.add("address")
     return ks
